@@ -10,7 +10,8 @@ namespace FileD.DrvProc
 open FileD FileD.Proc Tok
 open FileD.StreamProc (Op)
 
-/-- chain token list: v<i> scripted verdict action, j<f> real join on field m<f>, p<i> real split;
+/-- chain token list: v<i> scripted verdict action, j<f> real join on field m<f>, p<i> real split,
+    c<i> scripted collapse-only action (collapses when char i of field "v" is 'C');
     suffix `:c` = the action has the match condition `k<position> = "y"` -/
 def parseChain (s : String) : Option (List Act) :=
   if s = "-" then some [] else
@@ -20,6 +21,7 @@ def parseChain (s : String) : Option (List Act) :=
     if t.startsWith "v" then n.map Act.plain
     else if t.startsWith "j" then n.map Act.holder
     else if t.startsWith "p" then n.map (fun _ => Act.spawner)
+    else if t.startsWith "c" then n.map Act.collapser
     else none
 
 /-- text after the first occurrence of `pat` -/
@@ -49,6 +51,7 @@ def specOf (conds : List Nat) (json : String) (seq : Nat) : EvSpec :=
     skip := conds.filter fun p => strField json s!"k{p}" != some "y",
     kidSkip := conds,
     vs := ((strField json "v").getD "").toList.map verdictOf,
+    cs := ((((strField json "v").getD "").toList.zipIdx.filter (fun p => p.1 = 'C')).map (·.2)),
     js := (List.range 4).map fun f => clsOf (strField json s!"m{f}"),
     kids := (json.splitOn "{\"c\":").length - 1 }
 
